@@ -178,3 +178,82 @@ pub fn completion(prefix: &str) -> Option<String> {
     }
     None
 }
+
+
+// ------------------------------------------------------------------------------------------
+// the VALUE of an atom token, read independently of the library (for the C02 / C15 oracles): the kind in the
+// harness's canonical syntax (A<i> / a<i> / * / [isotope,symbol,configuration,hcount,charge,map] with `_` for absent)
+
+/// index of a configuration label in declaration order: AL1 AL2 OH1..OH30 SP1..SP3 TB1..TB20 TH1 TH2
+fn cfg_index(family: &str, n: u32) -> Option<usize> {
+    Some(match family {
+        "AL" if (1..=2).contains(&n) => n as usize - 1,
+        "OH" if (1..=30).contains(&n) => 1 + n as usize,
+        "SP" if (1..=3).contains(&n) => 31 + n as usize,
+        "TB" if (1..=20).contains(&n) => 34 + n as usize,
+        "TH" if (1..=2).contains(&n) => 54 + n as usize,
+        _ => return None,
+    })
+}
+
+fn take_number(cs: &[char], i: &mut usize, max_digits: usize) -> Option<u32> {
+    let start = *i;
+    while *i < cs.len() && *i - start < max_digits && cs[*i].is_ascii_digit() { *i += 1 }
+    if *i == start { return None }
+    cs[start..*i].iter().collect::<String>().parse().ok()
+}
+
+/// None when `tok` is not exactly one atom token of the documented grammar
+pub fn atom_value(tok: &str) -> Option<String> {
+    if classify(tok) != Verdict::Ok { return None }
+    let cs: Vec<char> = tok.chars().collect();
+    if tok == "*" { return Some("*".to_string()) }
+    if cs[0] != '[' {
+        if let Some(i) = ORGANIC.iter().position(|x| *x == tok) { return Some(format!("A{}", i)) }
+        if cs.len() == 1 { if let Some(i) = AROMATIC_ORGANIC.iter().position(|x| *x == cs[0]) { return Some(format!("a{}", i)) } }
+        return None
+    }
+    if *cs.last()? != ']' { return None }
+    let mut i = 1;
+    let iso = take_number(&cs, &mut i, 3);
+    // symbol: longest match among the 118 elements, the bracket aromatics and `*`
+    let sym;
+    if cs[i] == '*' { sym = "*".to_string(); i += 1 } else {
+        let two: String = cs[i..(i + 2).min(cs.len())].iter().collect();
+        let one: String = cs[i..i + 1].iter().collect();
+        let find = |x: &str| -> Option<String> {
+            if let Some(p) = PERIODIC.iter().position(|e| *e == x) { return Some(format!("E{}", p)) }
+            if let Some(p) = BRACKET_AROMATIC.iter().position(|e| *e == x) { return Some(format!("R{}", p)) }
+            None
+        };
+        if two.chars().count() == 2 && find(&two).is_some() { sym = find(&two)?; i += 2 } else { sym = find(&one)?; i += 1 }
+    }
+    let mut cfg: Option<usize> = None;
+    if cs[i] == '@' {
+        i += 1;
+        if cs[i] == '@' { cfg = Some(56); i += 1 }
+        else if cs[i].is_ascii_uppercase() && cs[i] != 'H' {
+            let fam: String = cs[i..i + 2].iter().collect();
+            i += 2;
+            let n = take_number(&cs, &mut i, 2)?;
+            cfg = Some(cfg_index(&fam, n)?);
+        } else { cfg = Some(55) }
+    }
+    let mut h: Option<u32> = None;
+    if cs[i] == 'H' { i += 1; h = Some(take_number(&cs, &mut i, 1).unwrap_or(1)) }
+    let mut q: Option<i32> = None;
+    if cs[i] == '+' || cs[i] == '-' {
+        let sign = if cs[i] == '+' { 1 } else { -1 };
+        let c0 = cs[i];
+        i += 1;
+        if cs[i] == c0 { q = Some(2 * sign); i += 1 }
+        else if cs[i].is_ascii_digit() { q = Some(sign * take_number(&cs, &mut i, 2)? as i32) }
+        else { q = Some(sign) }
+    }
+    let mut m: Option<u32> = None;
+    if cs[i] == ':' { i += 1; m = Some(take_number(&cs, &mut i, 3)?) }
+    if cs[i] != ']' || i + 1 != cs.len() { return None }
+    let o = |x: Option<String>| x.unwrap_or_else(|| "_".to_string());
+    Some(format!("[{},{},{},{},{},{}]", o(iso.map(|x| x.to_string())), sym, o(cfg.map(|x| x.to_string())), o(h.map(|x| x.to_string())),
+        o(q.map(|x| x.to_string())), o(m.map(|x| x.to_string()))))
+}
